@@ -635,26 +635,16 @@ def check_range_filter(P, ctx):
     N = util.Norm(P, fn)
     ins = [n for (n, c) in g.nodes_calling('GC_Set_Ptr')]
     key = ('param', 1)
-    ups = {}
-    for n in g.live():
-        if n['kind'] != 'stmt' or n['expr'] is None:
-            continue
-        e = N.canon(n['expr'])
-        if e[0] == 'assign' and e[1] == '=' and e[2][0] == 'arrow' and e[2][2] in ('maxptr', 'minptr'):
-            ups[e[2][2]] = (n, e[3])
-    ok = len(ins) == 1 and set(ups) == {'maxptr', 'minptr'}
+    NE = util.Norm(P, fn, expand_locals=False)
+    mx, mn = ('arrow', ('param', 0), 'maxptr'), ('arrow', ('param', 0), 'minptr')
+    ok = len(ins) == 1
     if ok:
-        for fld, (n, rhs) in ups.items():
-            # rhs must evaluate to max(key, old) / min(key, old)
-            old = ('arrow', ('param', 0), fld)
-            for kv, ov in ((5, 9), (9, 5), (7, 7)):
-                try:
-                    v = loops.ev(rhs, {key: kv, old: ov})
-                except NoEval:
-                    v = None
-                want = max(kv, ov) if fld == 'maxptr' else min(kv, ov)
-                ok = ok and v == want
-            ok = ok and g.must_pass(ins[0]['id'], [n['id']])
+        # evaluate the function up to the insertion for sample (address, old max, old min) triples
+        for kv, omax, omin in ((50, 90, 10), (95, 90, 10), (5, 90, 10), (90, 90, 10), (10, 90, 10), (7, 0, (1 << 64) - 1)):
+            env = {key: kv, mx: omax, mn: omin, ('arrow', ('param', 0), 'running'): 1, ('arrow', ('param', 0), 'nitems'): 3}
+            why, node, out = util.walk_eval(g, NE, env, stop=[ins[0]['id']])
+            if why != 'stop' or out.get(mx) != max(kv, omax) or out.get(mn) != min(kv, omin):
+                ok = False
     ctx.check(ok, rule, 'GC_Set:bounds', site(fn), 'before an object is inserted, maxptr/minptr are widened to include its address (the marker pre-filters candidates by this range)')
     fn = P.fn(P.slot('GC', 'New', 'construct_with'))
     N = util.Norm(P, fn)
